@@ -707,7 +707,7 @@ func ruleMergeZeroTrip(c *Ctx, r *R) {
 		if ret, ok := in.(*ssa.Return); ok {
 			for _, g := range guardsOf(b) {
 				if cf, ok := g.asCmp(); ok && cf.op == token.EQL && isConstInt(cf.y, 0) && strings.HasPrefix(path(cf.x), "len(") {
-					if call, ok := ret.Results[0].(*ssa.Call); ok {
+					if call, ok := returnedValue(ret, 0).(*ssa.Call); ok {
 						if cal := staticCallee(&call.Call); cal != nil && fname(cal) == "Empty" {
 							okZero = true
 						}
